@@ -1,6 +1,9 @@
 use crate::delta::{DiffType, Source, State, StateMachine};
 use crate::utils::path::relativize_path_maybe;
 
+/// Appended to the names of a binary file section; not part of the path.
+pub const BINARY_FILE_SUFFIX: &str = " (binary file)";
+
 impl StateMachine<'_> {
     #[inline]
     fn test_diff_file_missing(&self) -> bool {
@@ -31,11 +34,11 @@ impl StateMachine<'_> {
 
             if self.minus_file != "/dev/null" {
                 relativize_path_maybe(&mut self.minus_file, self.config);
-                self.minus_file.push_str(" (binary file)");
+                self.minus_file.push_str(BINARY_FILE_SUFFIX);
             }
             if self.plus_file != "/dev/null" {
                 relativize_path_maybe(&mut self.plus_file, self.config);
-                self.plus_file.push_str(" (binary file)");
+                self.plus_file.push_str(BINARY_FILE_SUFFIX);
             }
             return Ok(true);
         }
